@@ -1342,6 +1342,14 @@ def migration44(tdset):
     add_column('_grist_Pages', 'options', 'Text')
   ])
 
+def _millis_to_seconds(value):
+  if isinstance(value, (int, float)) and not isinstance(value, bool):
+    try:
+      return int(value / 1000)
+    except (OverflowError, ValueError):   # infinity, NaN
+      pass
+  return 0
+
 @migration(schema_version=45)
 def migration45(tdset):
   """
@@ -1373,9 +1381,10 @@ def migration45(tdset):
       time_created = content.get('timeCreated')
       time_updated = content.get('timeUpdated')
 
-      # Convert milliseconds to seconds for DateTime columns
-      time_created_values.append(int(time_created / 1000) if time_created is not None else 0)
-      time_updated_values.append(int(time_updated / 1000) if time_updated is not None else 0)
+      # Convert milliseconds to seconds for DateTime columns. The content is whatever JSON a client
+      # stored, so anything that isn't a usable number counts as a missing timestamp.
+      time_created_values.append(_millis_to_seconds(time_created))
+      time_updated_values.append(_millis_to_seconds(time_updated))
       resolved_values.append(bool(content.get('resolved', False)))
 
       # Remove these fields from JSON content if they exist
